@@ -154,19 +154,11 @@ func runServe(raw json.RawMessage) (interface{}, error) {
 	e := getEnv()
 	noroute.SetHTML(string(page))
 	defer noroute.SetHTML("")
-	var resp *clientResp
-	for attempt := 0; attempt < 3; attempt++ {
-		if err = e.installWith(config.Proxy{NoRouteStatus: in.NoRoute}, strings.Join(cmds, "\n"), nil, map[string]auth.AuthScheme{"basic": secrets}); err != nil {
-			return nil, err
-		}
-		if resp, err = e.roundTrip(in.Method, req, true); err == nil {
-			break
-		}
-	}
+	resp, hits, up, _, err := e.exchange(config.Proxy{NoRouteStatus: in.NoRoute}, pcfg{}, strings.Join(cmds, "\n"), nil,
+		map[string]auth.AuthScheme{"basic": secrets}, in.Method, req, true)
 	if err != nil {
 		return nil, err
 	}
-	hits, up := e.seen()
 	out := serveOut{Status: resp.Status, Hits: hits, Up: up, Body: resp.Body, Fwd: map[string]string{}}
 	for _, h := range resp.Hdr {
 		if h.K == "Location" && len(h.V) > 0 {
